@@ -7,6 +7,7 @@ and the debug VTK reads back to the same points and cells.
 -/
 import CBV.Lemmas.C06Geo
 import CBV.Lemmas.C06Num
+import CBV.Lemmas.C06Fmt
 import Mathlib.Data.String.Basic
 
 set_option linter.unusedSectionVars false
@@ -269,18 +270,95 @@ theorem T_C06_merged (decl : Decl) :
     (assembleDecl decl).merged = decl.mergedBefore ++ decl.mergedAfter ∧
     (assembleDecl decl).settings = decl.settings := ⟨rfl, rfl, rfl⟩
 
-/-! ### printed coordinates -/
+/-! ### printed numbers -/
 
 /-- **T_C06_round8.** The integer whose digits `fmt8` prints is a nearest integer to `|q|·10⁸`: the
     printed coordinate differs from the point by at most half a unit of the 8th decimal. -/
 theorem T_C06_round8 (q : Rat) :
     ((round8 q : Nat) : Rat) - (if q < 0 then -q else q) * ((pow10 8 : Nat) : Rat) ≤ 1 / 2 ∧
     (if q < 0 then -q else q) * ((pow10 8 : Nat) : Rat) - ((round8 q : Nat) : Rat) ≤ 1 / 2 :=
-  roundHalfEven_spec _ (mul_nonneg (by split <;> linarith) (by exact_mod_cast Nat.zero_le _))
+  roundK_spec 8 q
 
 /-- ties go to the even neighbour: `1/512 = 0.001953125` prints as `0.00195312` -/
 example : round8 (1 / 512) = 195312 ∧ round8 (3 / 512) = 585938 ∧ round8 (-1 / 3) = 33333333 := by
   decide +kernel
+
+/-- **T_C06_vector_format.** (`decide`, regenerated from the ast of the current source) `constants.vector_format`
+    is the f-string `({v[0]:.8f} {v[1]:.8f} {v[2]:.8f})`: components 0, 1, 2 in this order, each with format
+    `.8f` — exactly what the model's `vectorFormat` (used for every vertex line and every point of a curved
+    edge) says. -/
+theorem T_C06_vector_format :
+    CBV.Gen.c06VectorFormat = vectorFormatSource ∧ vectorFormat = [(0, 8), (1, 8), (2, 8)] := by decide +kernel
+
+/-- **T_C06_fmt_parse.** The text of a number reads back: for every rational `q` (the exact value of the
+    float), sign bit and number of decimals `k ≥ 1`, the characters `%.kf` prints denote exactly
+    `± round(|q|·10^k) / 10^k` (digit printing and zero padding included). -/
+theorem T_C06_fmt_parse (k : Nat) (hk : 0 < k) (neg : Bool) (q : Rat) :
+    decValue (fmtFixed k neg q).toList =
+      some ((if neg then -1 else 1) * (((roundK k q : Nat) : Rat) / ((pow10 k : Nat) : Rat))) := by
+  rw [fmtFixed, String.toList_ofList]; exact decValue_fmtFixedChars k hk neg q
+
+/-- **T_C06_fmt_value.** "to the printed 8 decimals": the number written for `q` (sign bit consistent with
+    `q`, as for every float) is a decimal `v` with `|v − q| ≤ ½·10⁻ᵏ` — for all `q`, all `k ≥ 1`. -/
+theorem T_C06_fmt_value (k : Nat) (hk : 0 < k) (neg : Bool) (q : Rat) (hs : SignOk neg q) :
+    ∃ v, decValue (fmtFixed k neg q).toList = some v ∧
+      (v - q) * ((pow10 k : Nat) : Rat) ≤ 1 / 2 ∧ (q - v) * ((pow10 k : Nat) : Rat) ≤ 1 / 2 :=
+  ⟨_, T_C06_fmt_parse k hk neg q, signed_round_close k neg q hs⟩
+
+example : SignOk true (-1 / 3) ∧ SignOk false 0 ∧ SignOk true 0 := by
+  refine ⟨⟨?_, ?_⟩, ⟨?_, ?_⟩, ⟨?_, ?_⟩⟩ <;> intro h <;> simp_all <;> norm_num
+
+/-- what CPython prints: zero padding, `-0.00000000` for a negative number that rounds to zero and for `-0.0`,
+    ties to even, large integer parts -/
+example : fmt8 false (1 / 512) = "0.00195312" ∧ fmt8 true (-1 / 1000000000) = "-0.00000000" ∧
+    fmt8 true 0 = "-0.00000000" ∧ fmt8 false (8400000000001 / 2) = "4200000000000.50000000" ∧
+    fmt8 true (-5 / 4) = "-1.25000000" := by decide +kernel
+
+/-- **T_C06_fmt_wellformed.** Every printed number is a token `[-]d…d.d…d` with at least one digit before the
+    point, no superfluous leading zero, and exactly `k` digits after it. -/
+theorem T_C06_fmt_wellformed (k : Nat) (hk : 0 < k) (neg : Bool) (q : Rat) :
+    isFixedToken k (fmtFixed k neg q).toList = true := by
+  rw [fmtFixed, String.toList_ofList]; exact isFixedToken_fmtFixedChars k hk neg q
+
+/-- **T_C06_fmt_separates.** Numbers that are printed as the same text differ by at most one unit of the last
+    decimal (so the text determines the number to `10⁻ᵏ`). -/
+theorem T_C06_fmt_separates (k : Nat) (hk : 0 < k) (n1 n2 : Bool) (q1 q2 : Rat)
+    (h1 : SignOk n1 q1) (h2 : SignOk n2 q2) (h : fmtFixed k n1 q1 = fmtFixed k n2 q2) :
+    (q1 - q2) * ((pow10 k : Nat) : Rat) ≤ 1 ∧ (q2 - q1) * ((pow10 k : Nat) : Rat) ≤ 1 :=
+  fmtFixedChars_separates k hk n1 n2 q1 q2 h1 h2 (String.ofList_injective h)
+
+/-- **T_C06_vertex_text_distinct.** Two positions that are *not* within the merge tolerance (the regenerated
+    `constants.TOL`) of each other are never written as the same `(x y z)`: the 8 decimals of `vector_format`
+    resolve everything the vertex merging keeps apart (the source's "keep about the same order of magnitude
+    than TOL"). -/
+theorem T_C06_vertex_text_distinct (p r : V3) (np nr : List Bool)
+    (hp : ∀ i, i < 3 → SignOk (np.getD i false) (V3.comp p i))
+    (hr : ∀ i, i < 3 → SignOk (nr.getD i false) (V3.comp r i))
+    (h : C05.closeV3 p r = false) : vectorTokens p np ≠ vectorTokens r nr := by
+  intro he
+  rw [vectorTokens_eq_close p r np nr hp hr he] at h
+  exact Bool.noConfusion h
+
+/-- … in particular for the vertex entries of the dictionary: corners with sign bits of their own coordinates -/
+example : vectorTokens ⟨0, 0, 0⟩ [false, true, false] ≠ vectorTokens ⟨1 / 1000000, 0, 0⟩ [false, false, false] :=
+  T_C06_vertex_text_distinct _ _ _ _
+    (signOk_vec _ _ _ _ ⟨fun _ => le_refl _, fun _ => le_refl _⟩ ⟨fun _ => le_refl _, fun _ => le_refl _⟩
+      ⟨fun _ => le_refl _, fun _ => le_refl _⟩)
+    (signOk_vec _ _ _ _ ⟨fun h => Bool.noConfusion h, fun _ => by norm_num⟩ ⟨fun _ => le_refl _, fun _ => le_refl _⟩
+      ⟨fun _ => le_refl _, fun _ => le_refl _⟩)
+    (by decide +kernel)
+
+/-- **T_C06_payload.** What a curved edge prints between its brackets: an arc the three `%.8f` numbers of its
+    third point, a spline / polyLine one `(x y z)` group per point of its point array, in order. -/
+theorem T_C06_payload (p : NumV3) (ps : List NumV3) :
+    (Payload.point p).trees = [.paren ((vectorTokens p.pos p.neg).map .atom)] ∧
+    (Payload.points ps).trees = [.paren (ps.map (fun q => .paren ((vectorTokens q.pos q.neg).map .atom)))] ∧
+    (vectorTokens p.pos p.neg).length = 3 ∧
+    ∀ s ∈ vectorTokens p.pos p.neg, isFixedToken 8 s.toList = true := by
+  refine ⟨rfl, rfl, rfl, ?_⟩
+  intro s hs
+  simp only [vectorTokens, vectorFormat, List.map_cons, List.map_nil, List.mem_cons, List.not_mem_nil, or_false] at hs
+  rcases hs with rfl | rfl | rfl <;> exact T_C06_fmt_wellformed 8 (by decide) _ _
 
 /-! ### the debug VTK -/
 
